@@ -86,6 +86,15 @@ Theorem C13_zone_roundtrip : forall ip, codec_rt ip -> forall z recs wrecs,
 Proof. exact zone_roundtrip. Qed.
 Print Assumptions C13_zone_roundtrip.
 
+(* [built] is closed under the API: Zone::new with an admissible apex / SOA, and every
+   insert / insert_wildcard of an admissible record (zone_apply = zone_insert on an operation
+   record) succeeds and stays inside *)
+Theorem C13_built_closed :
+  (forall apex s, head_ok apex s -> built (zone_new apex s)) /\
+  (forall z o, built z -> op_src_ok o -> exists z', zone_apply z o = Ok z' /\ built z').
+Proof. exact (conj built_new built_insert). Qed.
+Print Assumptions C13_built_closed.
+
 (* the order of the model's own all_records / all_wildcard_records is admissible, and so is every
    re-ordering of the names and of the type groups under a name *)
 Theorem C13_own_order_admissible : forall z, built z ->
@@ -152,3 +161,14 @@ Proof. exact Examples.roundtrip1. Qed.
 Example C13_built_ex2 : exists z txt z', zone_build root_domain None Examples.ops2 = Ok z /\
   zf_serialise z = Ok txt /\ zf_deserialise txt = Ok z' /\ zone_same z z'.
 Proof. exact Examples.roundtrip2. Qed.
+
+(* NOT proved -- kept as a statement:
+   Theorem C13_normalise_idempotent_text_partial : forall z txt z',
+     built z -> zf_serialise z = Ok txt -> zf_deserialise txt = Ok z' -> zf_serialise z' = Ok txt.
+   (for the model's OWN record order the second-pass text is literally the first-pass text).
+   Missing: that the association lists standing for the HashMaps of z' hold the type groups of a
+   name in the order z's do -- the abstraction relation R speaks about each type group separately.
+   Proved instead: C13_normalise_idempotent (the same ORDER PARAMETER gives the same text; every
+   order admissible for z' gives the same zone) and C13_ztoz_twice_zf.  The correspondence stream
+   checks the literal equality on every case (the second 'true' of 'true,true') and runs the real
+   ztoz binary twice. *)
